@@ -9,6 +9,7 @@ import (
 	"math/rand"
 	"os"
 	"runtime"
+	"strings"
 	"time"
 
 	"github.com/gr33nbl00d/caddy-revocation-validator/core"
@@ -371,6 +372,51 @@ func c07Random(c *vk.Ctx, rng *rand.Rand, dir string) int {
 		n++
 		c.Eval(fmt.Sprintf("rand|%d|%d", kind, i))
 		judgeHostile(c, fmt.Sprintf("reader:random:kind=%d", kind), "seeded random / mutated input", in, o, map[string]any{"kind": kind, "i": i})
+	}
+	// PEM framing, line by line: every line of an armoured sample (LF and CRLF) x every line-level edit. What a line may look like
+	// is attacker-chosen just as the bytes inside it.
+	for si, smp := range samples {
+		if si > 1 && !c.Thorough() {
+			break
+		}
+		for _, crlf := range []bool{false, true} {
+			p := derbuild.PEM(smp, crlf)
+			nl := "\n"
+			if crlf {
+				nl = "\r\n"
+			}
+			lines := strings.Split(strings.TrimSuffix(string(p), nl), nl)
+			edits := []func(l string) []string{
+				func(l string) []string { return []string{l, ""} },                      // an empty line after it
+				func(l string) []string { return []string{"", l} },                      // ... before it
+				func(l string) []string { return []string{l, " "} },                     // a line of one blank
+				func(l string) []string { return []string{l + " "} },                    // trailing blank
+				func(l string) []string { return []string{l[:len(l)/2], l[len(l)/2:]} }, // split in two
+				func(l string) []string { return []string{l + l} },                      // doubled (longer than 64)
+				func(l string) []string { return []string{l, "\r"} },                    // a bare carriage return
+				func(l string) []string { return nil },                                  // dropped
+			}
+			step := 1
+			if !c.Thorough() && len(lines) > 12 {
+				step = len(lines) / 12
+			}
+			for li := 0; li < len(lines); li += step {
+				for ei, ed := range edits {
+					var out []string
+					out = append(out, lines[:li]...)
+					out = append(out, ed(lines[li])...)
+					out = append(out, lines[li+1:]...)
+					// the edited file once with the sample's line end and once with LF only (mixed line ends)
+					for _, sep := range []string{nl, "\n"} {
+						in := []byte(strings.Join(out, sep) + sep)
+						o := feedReader(writeCRL(dir, in))
+						n++
+						c.Eval(fmt.Sprintf("pemline|%d|%v|%d|%d|%q", si, crlf, li, ei, sep))
+						judgeHostile(c, fmt.Sprintf("reader:pem-line-edit:%d", ei), "PEM armour with an edited line", in, o, map[string]any{"line": li, "edit": ei, "crlf": crlf})
+					}
+				}
+			}
+		}
 	}
 	// empty file
 	o := feedReader(writeCRL(dir, nil))
